@@ -67,6 +67,9 @@ def requirements_from(edges):
     return req
 
 
+TABLE_MUTATORS = (r"std::vec::Vec::<T, A>::(retain|retain_mut|truncate|pop|remove|swap_remove|drain|clear|dedup|dedup_by|dedup_by_key|split_off|resize|resize_with|set_len|extract_if)",)
+
+
 def field_stores(b, field):
     out = []
     for i, j, s in b.assigns():
@@ -175,6 +178,21 @@ def rule_table_invariants(ctx, crate, edges, rule="R-TABLE-INVARIANTS"):
                 # every path from the store to a normal return passes a guard
                 ok = bool(gs) and b.must_pass(b.succ(i) if i not in gs else [i], gs)
                 what = "%s.len() >= %d" % (field, want[1]) if want[0] == "len" else "%s != 0" % field
+                # .. and nothing changes the table between that guard and the return: an in-place mutation (`retain`, `truncate`,
+                # `pop`, `drain`, ..) of the stored table is a write like any other and needs the guard *after* it (seed C14l: zero-width
+                # clusters dropped after the count was checked)
+                if ok and want[0] == "len":
+                    for mc in b.calls(*TABLE_MUTATORS):
+                        recv = operand_local(mc.args[0]) if mc.args else None
+                        if recv is None or not any(field in tp for tl, tp in b.ref_origins().get(recv, ())):
+                            continue
+                        after = [mc.target] if mc.target is not None else []
+                        if mc.bb in b.reach_after(i) and not b.must_pass(after, gs):
+                            ok = False
+                            ctx.check(False, rule, key + ":mutated-after-guard:" + K.meth(mc.path), b.name, mc.loc(),
+                                      "",
+                                      "`%s` is changed in place by %s after the guard that establishes %s (or with no guard behind it): the stored table can be shorter "
+                                      "than the renderer's index arithmetic assumes - the panic moves from the builder into a draw" % (field, K.meth(mc.path), what), cfg)
                 ctx.check(ok, rule, key, b.name, "%s:%d" % (b.file, s.get("line", 0)),
                           "after writing `%s` every path to the return passes a panicking guard establishing %s on the value just written" % (field, what),
                           "`%s` is written without a guard establishing %s on the value just written (the renderer later %s)" %
